@@ -105,6 +105,28 @@ pub fn case(ctx: &Ctx, w: usize, h: usize, k: u64, rep: &mut Report) {
     }
 }
 
+pub fn ladder_case(ctx: &Ctx, w: usize, h: usize, k: usize, rep: &mut Report) {
+    let mut rng = Rng::new(ctx.seed ^ 0xC13AD, 1 + k as u64);
+    let flavour = Flavour::Sor((k % 2) as u8);
+    let cfg = super::ladder::cfg_for(&mut rng, flavour, w, h, 0);
+    let pic = super::ladder::large_intra(&mut rng, &cfg);
+    let bytes = pic.encode();
+    rep.evaluations += 1;
+    let coords = || J::obj().set("property", "C13").set("kind", "ladder").set("tier", ctx.tier_name()).set("seed", ctx.seed).set("stage", ctx.stage.clone()).set("w", w).set("h", h).set("k", k);
+    let mut dec = Dec::new(true, false);
+    match dec.decode(&bytes) {
+        Outcome::Ok => {}
+        o => {
+            rep.count(&format!("ladder_skipped:decode:{}", o.short()));
+            return;
+        }
+    }
+    if pipeline(&dec, w, h, cfg.quant, rep, &coords) {
+        rep.count("ladder_pictures_postprocessed");
+        rep.distinct.insert(fnv64(&bytes));
+    }
+}
+
 pub fn run(ctx: &Ctx) -> (Report, String) {
     let maxd: usize = if ctx.stage == "miri" { 12 } else if ctx.tier == Tier::Thorough { 200 } else { 80 };
     let maxd = (maxd as u64 * ctx.scale_pct.min(100) / 100).max(10) as usize;
@@ -121,6 +143,19 @@ pub fn run(ctx: &Ctx) -> (Report, String) {
     });
     let mut rep = Report::merge_all(reps);
     if ctx.stage != "miri" {
+        // boundary-value ladder: extreme dimensions, macroblock and chroma-sample counts around powers of two
+        let mut lrng = Rng::new(ctx.seed ^ 0xC13AD, 0);
+        let dims = super::ladder::boundary_dims(&mut lrng, ctx.tier == Tier::Thorough);
+        let lr = par_shards(dims.len(), ctx.threads, |k| {
+            let mut r = Report::new();
+            let (w, h) = dims[k];
+            crate::mon::guarded(&mut r, || J::obj().set("property", "C13").set("kind", "ladder").set("w", w).set("h", h), |r| ladder_case(ctx, w, h, k, r));
+            r
+        });
+        rep.merge(Report::merge_all(lr));
+        if ctx.is_main() {
+            rep.require("ladder_pictures_postprocessed", dims.len() as u64 * 9 / 10);
+        }
         for (w, h) in [(128, 96), (176, 144), (352, 288), (320, 240), (160, 120)] {
             for k in 0..ks {
                 case(ctx, w, h, k, &mut rep);
@@ -138,5 +173,9 @@ pub fn run(ctx: &Ctx) -> (Report, String) {
 
 pub fn replay(ctx: &Ctx, j: &J, rep: &mut Report) {
     let g = |k: &str| j.get(k).and_then(|v| v.as_i64()).unwrap_or(1);
+    if j.get("kind").and_then(|k| k.as_str()) == Some("ladder") {
+        ladder_case(ctx, g("w") as usize, g("h") as usize, g("k") as usize, rep);
+        return;
+    }
     case(ctx, g("w") as usize, g("h") as usize, g("k") as u64, rep);
 }
